@@ -405,6 +405,19 @@ def c04_deps(spec, obs, sc=0):
                                         f"{at} + gap {g:.0f}s = {bound} ({'ASAP' if fwd else 'ALAP'})"))
             elif rec["start"][sc] - bound < timedelta(seconds=obs["gran"]):
                 tight += 1
+        # gaplength edges (forward only): the predecessor's end advanced by that many working hours of the project calendar
+        if fwd:
+            gl = [(p, h) for a in [fid] + list(deps.ancestors(fid)) for p, h in deps.gaplen.get(a, [])]
+            if gl:
+                cal = RefCalendar(spec)
+                for p, hours in gl:
+                    pr = tix.get(p)
+                    if not pr or not pr["sched"][sc] or pr["end"][sc] is None or rec["start"][sc] is None:
+                        continue
+                    bound = cal.advance_working(pr["end"][sc], hours)
+                    checked += 1
+                    if rec["start"][sc] < bound:
+                        v.append(("gaplength", f"{fid} starts {rec['start'][sc]} before {p}.end {pr['end'][sc]} + {hours} working hours of the project calendar = {bound}"))
     return v, tight, checked
 
 
@@ -487,6 +500,13 @@ def c08_idle(spec, obs, sc=0, cal=None):
                     bound = max(bound, at + timedelta(seconds=g))
             if not ok:
                 continue
+            # gaplength edges: the predecessor's end advanced by that many working hours of the PROJECT calendar
+            if not t.get("start"):
+                for a in [fid] + list(deps.ancestors(fid)):
+                    for p, hours in deps.gaplen.get(a, []):
+                        pr = tix.get(p)
+                        if pr and pr["sched"][sc] and pr["end"][sc] is not None:
+                            bound = max(bound, cal.advance_working(pr["end"][sc], hours))
             b = sidx(bound)
             first = b if slot_start(obs, b) == bound else b + 1
             last = slots[-1]
